@@ -30,6 +30,8 @@ def run(tier, corrupt=0):
     s = common.harness_replay(c, "grammar", path)
     c.setv("accepted_sentences", s["extra"]["accepted"])
     c.setv("rejected_sentences", s["extra"]["rejected"])
+    c.setv("printer_spec_exact", s["extra"].get("display_exact"))     # Display.tla == real to_string() (diagnostic)
+    c.setv("printer_spec_differences", s["extra"].get("display_diffs", [])[:5])
     for l in (lines[0], lines[len(lines) // 2], lines[-1]):
         e = json.loads(l)
         c.sample({"text": e["text"], "expect": e["expect"]})
